@@ -2,7 +2,7 @@
 import copy
 import random
 
-from harness import common, core, gens, schemes, text, vers
+from harness import common, core, dense, gens, schemes, text, vers
 
 
 def snap(o):
@@ -86,6 +86,7 @@ def run(ctx):
                         values.append(v)
         values = values[: (300 if ctx.tier == "quick" else 3000)]
         pairs = schemes.pairs_from(r, values, npairs) + gens.equal_variant_pairs(r, cls, values, npairs // 2)
+        pairs += dense.pairs(r, cls, 6 if ctx.tier == "quick" else 60, 400 if ctx.tier == "quick" else 6000)   # same base, small variations (harness/dense.py)
         neq = nbad = 0
         rcls = vers.range_class_for(cls)
         for a, b in pairs:
